@@ -312,7 +312,7 @@ func init() {
 					return
 				}
 				sess := sess
-				if family == "SCN" || family == "SSTORESEQ" {
+				if family == "SCN" || family == "SSTORESEQ" || family == "SDSEQ" {
 					sess = world.NewSession(cs.Accounts)
 				}
 				// (i) full-data streams
